@@ -42,6 +42,7 @@ func register(s *Spec) {
 	s.Run = func(r *an.Run) {
 		inner(r)
 		loopCoverage(r, s.ID)
+		directCalls(r)
 	}
 	registry[s.ID] = s
 }
